@@ -33,6 +33,7 @@ var (
 )
 
 func Setup() {
+	setupVarMenu()
 	menu = nil
 	for _, f := range []string{"local-name", "namespace-uri", "name"} {
 		add(spec.Fn(f))
@@ -139,4 +140,38 @@ func RunLang() {
 	got, ok := r.(xsel.Bool)
 	nd.Assert(ok, "lang.is-bool")
 	nd.Assert(bool(got) == d.Lang(ctx, l), "lang.value")
+}
+
+var varMenu []entry
+
+func setupVarMenu() {
+	varMenu = nil
+	v := spec.Var{Local: "v"}
+	for _, ast := range []spec.Expr{spec.Fn("name", v), spec.Fn("local-name", v), spec.Fn("namespace-uri", v), spec.Fn("count", v),
+		spec.Path{Start: v, Steps: []spec.Step{spec.S("child", tAny)}}} {
+		src := spec.Render(ast)
+		g := xsel.MustBuildExpr(src)
+		varMenu = append(varMenu, entry{src: src, ast: ast, g: &g})
+	}
+}
+
+// RunNodeSetVariable: name functions of a node-set bound to a variable in
+// whatever order the caller built it use its first node in DOCUMENT order:
+// every sequence of 3 (thorough: 4) distinct element nodes of the skeleton.
+func RunNodeSetVariable() {
+	b := hx.Skeleton()
+	nd.Assert(b.TieOK, "store-mirrors-script")
+	n := 3
+	if nd.Tier() > 0 {
+		n = 3 + nd.Choice(2)
+	}
+	ns, set := hx.PickOrdered(b, b.Elements(), n)
+	bind := &spec.Bindings{NS: map[string]string{}, Vars: map[string]spec.Val{"v": {T: spec.TSet, Set: set}}}
+	nd.Reach("node-set-variable")
+	for k := range varMenu {
+		m := &varMenu[k]
+		r, err := xsel.Exec(b.Root, m.g, xsel.WithVariable("v", ns))
+		want, wantFail := specEvalAt(b.Doc, m.ast, 0, bind)
+		c01.CompareResult(b, r, err, want, wantFail, m.src)
+	}
 }
